@@ -87,6 +87,25 @@ def generate():
     _need(r"__builtin_memcpy\s*\(\s*new_block_table->blocks\s*,\s*block_table->blocks\s*,\s*block_num\s*\*\s*sizeof\s*\(\s*char\s*\*\s*\)\s*\)", s, "slow: copies block_num entries")
     _need(r"block_num\s*=\s*block_table->size\s*;\s*if\s*\(\s*block_num\s*>=\s*expect_block_num\s*\)", s, "slow: loser re-reads the winner's size")
     _need(r"_retire_list\.retire\s*\(\s*block_table\s*\)\s*;\s*return\s+new_block_table\s*;", s, "slow: winner retires the table it replaced")
+    # ---- named memory orders of the publication protocol (used by Babylon/CVec/View.lean)
+    def ords(sites, kind):
+        return [x.split() for x in sites if x.startswith(kind)]
+    gq = ords(skeleton(cv("get_qualified_block_table"), []), ".load")
+    sn = ords(skeleton(cv("snapshot")), ".load")
+    cs = ords(skeleton(slow, []), ".cas")
+    if len(gq) != 1 or len(sn) < 1 or len(cs) != 1:
+        raise ExtractError("publication protocol: expected one load in get_qualified_block_table / snapshot and one CAS in the slow path")
+    items.append("def ordTblLoad : Ord := %s" % gq[0][-1])          # ensure / reserve / for_each: get_qualified_block_table
+    items.append("def ordSnapshotLoad : Ord := %s" % sn[0][-1])     # snapshot() / operator[]
+    items.append("def ordTblCasSucc : Ord := %s" % cs[0][-2])       # publishing CAS
+    items.append("def ordTblCasFail : Ord := %s" % cs[0][-1])       # the loser obtains the winner's table through this order
+    # every modification of `_block_table` inside the thread-safe API is that CAS (release sequence); the plain
+    # stores are in the constructor and in swap(), which are not thread-safe
+    body_all = strip_comments(txt)
+    n_store = len(re.findall(r"_block_table\s*\.\s*store\s*\(", body_all))
+    n_xchg = len(re.findall(r"_block_table\s*\.\s*exchange\s*\(", body_all))
+    items.append(nat_def("tblStoreSites", n_store))
+    items.append(nat_def("tblExchangeSites", n_xchg))
     # ---- index arithmetic
     _need(r"return\s+index\s*>>\s*_block_mask_bits\s*;", strip_comments(cv("DynamicMeta::block_index")), "DynamicMeta::block_index")
     _need(r"return\s+index\s*&\s*_block_mask\s*;", strip_comments(cv("DynamicMeta::block_offset")), "DynamicMeta::block_offset")
